@@ -2,9 +2,12 @@ package engines
 
 import (
 	"bytes"
+	"encoding/json"
 	"errors"
 	"fmt"
 	"io"
+	"os"
+	"os/exec"
 	"strings"
 
 	"filippo.io/age/armor"
@@ -197,7 +200,8 @@ func applyArmorMut(text string, m ArmorMut) string {
 }
 
 type C08Plan struct {
-	Mode     string        `json:"mode"` // "encode" | "decode"
+	Mode     string        `json:"mode"` // "encode" | "decode" | "large32" (thorough: the armor writer built for a 32-bit GOARCH, past 2^31 output columns, in its own process)
+	MiB      int           `json:"mib,omitempty"`
 	DSeed    uint64        `json:"dseed"`
 	DLen     int           `json:"dlen"`
 	Segs     []int         `json:"segs"` // encode: write segmentation; nil/empty = no Write at all
@@ -228,7 +232,7 @@ func (C08) Meta() core.Meta {
 		Real:        []string{"armor.NewWriter", "armor.NewReader", "internal/format WrappedBase64Encoder"},
 		Stub:        []string{"destination (bytes recorder)", "text source with delivery schedule (SimSource)", "transport corruptor"},
 		FaultKinds:  prefixAll("fault.", armorMutKinds[1:]),
-		Probes:      []string{"probe.no_write_before_close", "probe.only_empty_writes", "probe.len_multiple_of_48", "probe.short_last_line", "probe.accepted_noncanonical_but_tolerated", "probe.accepted_canonical", "probe.rejected", "probe.ws_bound_1024", "probe.sweep_truncs", "probe.sweep_substs"},
+		Probes:      []string{"probe.no_write_before_close", "probe.only_empty_writes", "probe.len_multiple_of_48", "probe.short_last_line", "probe.accepted_noncanonical_but_tolerated", "probe.accepted_canonical", "probe.rejected", "probe.ws_bound_1024", "probe.sweep_truncs", "probe.sweep_substs", "probe.large_stream_32bit_int"},
 	}
 }
 
@@ -254,6 +258,10 @@ func (C08) Generate(r *core.RNG, tier string, idx uint64) interface{} {
 		}
 	default:
 		p.DLen = r.Intn(700)
+	}
+	if tier == "thorough" && idx%200000 == 5 && os.Getenv("AGE_ARMOR32_BIN") != "" {
+		// the writer's bookkeeping over a stream longer than a 32-bit int can count
+		return &C08Plan{Mode: "large32", DSeed: r.U64() % 100000, MiB: r.Pick(1537, 1540, 1600, 3080)}
 	}
 	if idx%3 == 0 {
 		p.Mode = "encode"
@@ -319,6 +327,14 @@ func genSmallSegs(r *core.RNG, n int) []int {
 
 func (C08) Shrinks(plan interface{}) []interface{} {
 	p := plan.(*C08Plan)
+	if p.Mode == "large32" {
+		if p.MiB > 1537 {
+			q := *p
+			q.MiB = 1537
+			return []interface{}{&q}
+		}
+		return nil
+	}
 	var out []interface{}
 	add := func(f func(q *C08Plan)) {
 		q := *p
@@ -428,6 +444,9 @@ func clip(s string) string {
 
 func (e C08) Execute(plan interface{}, c *core.Ctx) *core.Verdict {
 	p := plan.(*C08Plan)
+	if p.Mode == "large32" {
+		return e.execLarge32(p, c)
+	}
 	data := core.Pattern(p.DSeed, p.DLen)
 	if p.Mode == "encode" {
 		var buf bytes.Buffer
@@ -560,3 +579,37 @@ func (e C08) Execute(plan interface{}, c *core.Ctx) *core.Verdict {
 }
 
 func newArmorReader(s *seam.SimSource) io.Reader { return armor.NewReader(s.Reader()) }
+
+// execLarge32 runs cmd/armor32 (the real armor writer compiled for a 32-bit GOARCH, a seeded sequence of Write
+// calls over more than 1.5 GiB, a strict streaming de-armorer as the destination) and takes its verdict.
+func (e C08) execLarge32(p *C08Plan, c *core.Ctx) *core.Verdict {
+	bin := os.Getenv("AGE_ARMOR32_BIN")
+	if bin == "" {
+		return core.Fail("harness", "AGE_ARMOR32_BIN not set (./check builds it for the thorough tier and for replays)")
+	}
+	out, err := exec.Command(bin, fmt.Sprint(p.DSeed), fmt.Sprint(p.MiB)).Output()
+	if err != nil {
+		return core.Fail("harness", "armor32: %v", err)
+	}
+	var res struct {
+		OK      bool   `json:"ok"`
+		Detail  string `json:"detail"`
+		IntBits int    `json:"int_bits"`
+		Plain   int64  `json:"plaintext_bytes"`
+		Out     int64  `json:"output_bytes"`
+		Writes  int    `json:"writes"`
+	}
+	if err := json.Unmarshal(out, &res); err != nil {
+		return core.Fail("harness", "armor32 output %q: %v", out, err)
+	}
+	if res.IntBits != 32 {
+		return core.Fail("harness", "armor32 was built with %d-bit int", res.IntBits)
+	}
+	c.Log.Add("armor32 seed=%d mib=%d: writes=%d plaintext=%d output=%d ok=%v %s", p.DSeed, p.MiB, res.Writes, res.Plain, res.Out, res.OK, res.Detail)
+	c.Stats.Inc("probe.large_stream_32bit_int")
+	c.Stats.Eval(fmt.Sprintf("large32|%d|%d", p.DSeed, p.MiB), true)
+	if !res.OK {
+		return core.Fail("C08.large_stream", "armor writer on a 32-bit platform, %d Write calls over %d bytes: %s", res.Writes, res.Plain, res.Detail)
+	}
+	return nil
+}
